@@ -33,7 +33,9 @@ func TestMain(m *testing.M) {
 
 var tokens = []string{"tk0", "tk1", "tk2", "tk3", "svc.tk4.lat", "tk5-x_y"}
 var tokenRe = regexp.MustCompile(`(^|\.)(tk[0-9])(\.|-|$)`)
-var tagPool = []string{"env:prod", "region:us-east", "svc:web/api", "k.dot:v_1", "ver:42", "flag", "window:12:30", "up:db:5432/x"}
+var tagPool = []string{"env:prod", "region:us-east", "svc:web/api", "k.dot:v_1", "ver:42", "flag", "window:12:30", "up:db:5432/x",
+	// tags whose key merely begins with "host": ordinary tags, the series still has its source as host
+	"hostname:web1", "hostgroup:db", "hostile"}
 var hosts = []string{"", "h1"}
 
 type ident struct {
